@@ -27,3 +27,7 @@ import RpylibModel.ProofsGen.C20Table
 import RpylibModel.ProofsGen.SrcC14
 import RpylibModel.ProofsGen.SrcC17
 import RpylibModel.ProofsGen.SrcC17Model
+import RpylibModel.ProofsGen.SrcC10
+import RpylibModel.ProofsGen.SrcC10Model
+import RpylibModel.ProofsGen.SrcC18
+import RpylibModel.ProofsGen.SrcC19
